@@ -297,10 +297,21 @@ class NPW:
                 res[idx] = o[idx] if o is not None else 0.0
         return res
 
-    def isclose(self, a, b, **kw):
-        if has_sym(a) or has_sym(b):
-            raise Unsupported("np.isclose on symbolic values")
-        return np.isclose(a, b, **kw)
+    def isclose(self, a, b, rtol=1e-05, atol=1e-08, equal_nan=False):
+        if not (has_sym(a) or has_sym(b)):
+            return np.isclose(a, b, rtol=rtol, atol=atol, equal_nan=equal_nan)
+        a = np.asarray(a, dtype=object)
+        bb = np.broadcast_to(np.asarray(b, dtype=object), a.shape)
+        out = np.empty(a.shape, dtype=object)
+        for idx in np.ndindex(*a.shape):
+            x, y = lift(a[idx]), lift(bb[idx])
+            d = z3.If(x - y >= 0, x - y, y - x)
+            ay = z3.If(y >= 0, y, -y)
+            out[idx] = SB(d <= lift(atol) + lift(rtol) * ay)
+        return out if a.shape else out.item()
+
+    def all(self, a, *args, **kw):
+        return np.all(a, *args, **kw)
 
 
 npw = NPW()
@@ -424,6 +435,8 @@ class SymRNG:
 
     def _log(self, kind, value, **extra):
         self.ndraws += 1
+        if isinstance(value, np.ndarray):
+            value = value.copy()  # callers may mutate the returned array in place
         d = {"kind": kind, "value": value, "site": self.tag}
         d.update(extra)
         E().draws.append(d)
